@@ -10,7 +10,7 @@
     Spec (C18/Spec.v): [lq_step]/[ls_step] are the FIFO/LIFO machines on a plain [list V];
     [added ops] are the values put in by the history, [removed ops outs] the values handed out by
     its successful Dequeue/Pop calls, both in call order. *)
-From Algo.C18 Require Import Model Spec Proofs ProofsStack ProofsSoft ProofsOrder.
+From Algo.C18 Require Import Model Spec Abs Proofs ProofsStack ProofsSoft ProofsOrder ProofsAbs.
 From Coq Require Import Permutation.
 Open Scope Z_scope.
 
@@ -48,6 +48,21 @@ Proof.
   fold live in H2. subst l.
   destruct (q_observers V zero eqb q live HI) as (A & B & C & _ & D & _).
   repeat split; assumption.
+Qed.
+
+(** The live sequence can be read off the concrete state: iterating over the blocks from the
+    front cursor to the rear cursor ([q_values], C18/Abs.v) yields exactly the enqueued values
+    that were not dequeued yet, in order — the representation never loses, reorders or keeps
+    reachable a stale cell. *)
+Theorem C18_queue_state_holds_live_values :
+  forall (V : Type) (zero : V) (eqb : V -> V -> bool) (nodeSize : Z) (ops : list (op V)) q outs,
+    1 <= nodeSize ->
+    q_run V zero eqb nodeSize ops = Ok (q, outs) ->
+    q_values V q = Ok (skipn (length (removed V ops outs)) (added V ops)).
+Proof.
+  intros V zero eqb ns ops q outs Hns E.
+  destruct (q_fifo V zero eqb ns ops q outs Hns E) as (l & _ & -> & HI).
+  now apply q_values_ok.
 Qed.
 
 (** * Stack *)
@@ -94,6 +109,20 @@ Proof.
   rewrite E in E0. injection E0 as -> ->. fold live in HI.
   destruct (s_observers V zero eqb s0 live HI) as (A & B & C & _ & D & _).
   split; [apply (ls_perm V zero eqb ops []) | repeat split; assumption].
+Qed.
+
+(** Iterating over the blocks from the top cursor downwards ([s_values]) yields the live
+    sequence of the LIFO machine. *)
+Theorem C18_stack_state_holds_live_values :
+  forall (V : Type) (zero : V) (eqb : V -> V -> bool) (nodeSize : Z) (ops : list (op V)) s outs,
+    1 <= nodeSize ->
+    s_run V zero eqb nodeSize ops = Ok (s, outs) ->
+    s_values V s = Ok (ls_final V zero eqb ops).
+Proof.
+  intros V zero eqb ns ops s outs Hns E.
+  destruct (s_run_refines V zero eqb ns ops Hns) as (s0 & E0 & HI).
+  rewrite E in E0. injection E0 as -> _.
+  now apply s_values_ok.
 Qed.
 
 (** * Soft queue *)
@@ -172,7 +201,9 @@ Proof. vm_compute. split; reflexivity. Qed.
 
 Print Assumptions C18_queue_refines_fifo.
 Print Assumptions C18_queue_order_and_observers.
+Print Assumptions C18_queue_state_holds_live_values.
 Print Assumptions C18_stack_refines_lifo.
+Print Assumptions C18_stack_state_holds_live_values.
 Print Assumptions C18_stack_pops_in_reverse_push_order.
 Print Assumptions C18_stack_observers.
 Print Assumptions C18_softqueue_refines.
